@@ -84,12 +84,20 @@ class C10(Prop):
         results = e2.run_units(units)
         ctx["info"]["progen_units"] = len(units)
         fails = []
-        for r in results:
+        seen_crash = set()
+        for r in sorted(results, key=lambda r: (r["u"], r["r"])):
             u = units[r["u"]]
             key = "e2-rendering:" + r["status"]
             stats.classes[key] = stats.classes.get(key, 0) + 1
             if r["status"] == "rejected_compile":
                 stats.rejected["rejected_compile"] = stats.rejected.get("rejected_compile", 0) + 1
+            if r["status"] == "crash" and (r["u"], "crash") not in seen_crash:
+                # the program died while building / evaluating this composition (later renderings of the same program have no record either:
+                # only the first one is reported)
+                seen_crash.add((r["u"], "crash"))
+                lks, aks = u["renderings"][r["r"]]
+                fails.append(({"_external": True, "case": u["case"], "kinds": [lks, aks], "cfg": u.get("cfg", "gcc"), "path": "crash"},
+                              "program crashed while the lazy view / its evaluation was computed: %s [leaf=%s attr=%s cfg=%s]" % (str(r.get("crash"))[:300], lks, aks, u.get("cfg", "gcc")), {}))
             if r["status"] != "ok":
                 continue
             rec = r["rec"]
@@ -120,6 +128,8 @@ class C10(Prop):
         unit = {"case": case["case"], "renderings": [tuple(case["kinds"])], "cfg": case.get("cfg", "gcc")}
         out = []
         for r in e2.run_units([unit]):
+            if r["status"] == "crash":
+                out.append((case, "program crashed: %s" % str(r.get("crash"))[:200], {}))
             if r["status"] != "ok":
                 continue
             rec = r["rec"]
